@@ -775,6 +775,9 @@ Proof. unfold run. apply fold_left_app. Qed.
 Lemma forall_app_l {A} (P : A -> Prop) a b : Forall P (a ++ b) -> Forall P a.
 Proof. intros H. apply Forall_app in H. apply H. Qed.
 
+Lemma start_inv limit ttl : 0 <= limit -> Inv (w_st (start limit ttl)).
+Proof. apply init_inv. Qed.
+
 Theorem hit_provenance limit ttl ops k v w' :
   0 <= limit -> Forall op_wf ops ->
   step (run (start limit ttl) ops) (OGet k) = (w', RVal (Some v)) ->
@@ -789,18 +792,299 @@ Theorem hit_provenance limit ttl ops k v w' :
     end.
 Proof.
   intros L W H.
-  pose proof (run_inv ops (start limit ttl) (init_inv limit ttl L) W) as I.
-  pose proof (run_sub ops _ _ (init_inv limit ttl L) W (start_sub limit ttl)) as (M & _ & _ & EN).
+  pose proof (run_inv ops (start limit ttl) (start_inv limit ttl L) W) as I.
+  pose proof (run_sub ops _ _ (start_inv limit ttl L) W (start_sub limit ttl)) as (M & _ & _ & EN).
   cbn [step] in H. destruct (c_get _ k _) as [st' r] eqn:G. inversion H; subst.
   apply get_some in G; [|destruct I as [[N _ _ _] _]; auto].
   destruct G as (e & P & EV & X). apply M in P.
-  apply sp_provenance in P. destruct P as [[A _] | (ops1 & v & ops2 & -> & NZ & FIT & E & UK)].
+  apply sp_provenance in P. destruct P as [[A _] | (ops1 & v0 & ops2 & -> & NZ & FIT & E & UK)].
   { cbn in A. discriminate. }
-  subst e. cbn [e_val]. exists ops1, ops2. split; auto. split; auto. cbn zeta.
-  pose proof (run_sub ops1 _ _ (init_inv limit ttl L) (forall_app_l _ _ _ W) (start_sub limit ttl))
+  subst e. cbn [e_val] in EV. subst v0. exists ops1, ops2. split; auto. split; auto. cbn zeta.
+  pose proof (run_sub ops1 _ _ (start_inv limit ttl L) (forall_app_l _ _ _ W) (start_sub limit ttl))
     as (_ & EL1 & ET1 & EN1).
   rewrite EL1, ET1, EN1. repeat split; auto.
   unfold expired in X. cbn [e_exp] in X.
   destruct (sp_ttl (sp_run (sp_start limit ttl) ops1)) as [t|]; cbn [option_map] in X; auto.
   rewrite Z.gtb_ltb, Z.ltb_ge in X. exact X.
 Qed.
+
+(* ------------------------------------------------------------------ an accepted put is retained *)
+Lemma put_retained st k v now :
+  Inv st -> 0 <= k_size k -> 0 <= v_size v -> v_size v <> 0 -> k_size k + v_size v <= s_limit st ->
+  lq_peek k (s_q (fst (c_put st k v now))) = Some (mkEntry v (option_map (fun t => now + t) (s_ttl st))).
+Proof.
+  intros I K V NZ FIT. rewrite c_put_unfold.
+  apply Z.eqb_neq in NZ. rewrite NZ.
+  assert (G : (k_size k + v_size v >? s_limit st) = false) by (rewrite Z.gtb_ltb, Z.ltb_ge; auto).
+  rewrite G. cbn zeta. cbn [fst].
+  pose proof (put_pre st k v now I K V) as PP. cbn zeta in PP.
+  destruct (evict_spec _ PP) as (pre & suf & A & B & C & D & E & F & MIN).
+  rewrite B. cbn [s_q s_limit] in A, MIN.
+  destruct pre as [|p pre].
+  - cbn [app] in A. destruct MIN as [-> | (x & suf' & -> & M)]. discriminate.
+    inversion A; subst x. cbn [app qsum] in M. unfold vsz in M. cbn [e_val] in M. lia.
+  - cbn [app] in A. inversion A; subst p. cbn [lq_peek]. rewrite key_eqb_refl. reflexivity.
+Qed.
+
+Lemma put_then_get w k v :
+  Inv (w_st w) -> 0 <= k_size k -> 0 <= v_size v -> v_size v <> 0 ->
+  k_size k + v_size v <= s_limit (w_st w) ->
+  match s_ttl (w_st w) with Some t => 0 <= t | None => True end ->
+  snd (step (fst (step w (OPut k v))) (OGet k)) = RVal (Some v).
+Proof.
+  intros I K V NZ FIT T.
+  pose proof (put_retained (w_st w) k v (w_now w) I K V NZ FIT) as P.
+  pose proof (put_inv (w_st w) k v (w_now w) I K V) as I'.
+  cbn [step]. destruct (c_put (w_st w) k v (w_now w)) as [st1 r1]. cbn [fst w_st w_now] in *.
+  destruct I' as [[N _ _ _] _].
+  pose proof (get_complete st1 k (w_now w) _ N P) as G.
+  assert (X : expired (mkEntry v (option_map (fun t => w_now w + t) (s_ttl (w_st w)))) (w_now w) = false).
+  { unfold expired. cbn [e_exp]. destruct (s_ttl (w_st w)); cbn [option_map]; auto.
+    rewrite Z.gtb_ltb, Z.ltb_ge. lia. }
+  specialize (G X). destruct (c_get st1 k (w_now w)). cbn [snd e_val] in *. subst. reflexivity.
+Qed.
+
+(* ------------------------------------------------------------------ validity rule + caller protocol *)
+Lemma is_valid_for_iff v cur : is_valid_for v cur = true <-> v_meta v = cur.
+Proof.
+  unfold is_valid_for. destruct (v_meta v) as [a b c], cur as [a' b' c']. cbn.
+  rewrite !andb_true_iff, !Z.eqb_eq. split.
+  - intros [[-> ->] ->]. reflexivity.
+  - intros H; inversion H; auto.
+Qed.
+
+Lemma lookup_cases w k cur fresh :
+  let w1 := fst (step w (OGet k)) in
+  (exists v, snd (step w (OGet k)) = RVal (Some v) /\ is_valid_for v cur = true /\
+             lookup w k cur fresh = (w1, (true, v))) \/
+  ((forall v, snd (step w (OGet k)) = RVal (Some v) -> is_valid_for v cur = false) /\
+   lookup w k cur fresh = (fst (step w1 (OPut k fresh)), (false, fresh))).
+Proof.
+  cbn zeta. unfold lookup. destruct (step w (OGet k)) as [w1 r] eqn:S. cbn [fst snd].
+  destruct r as [[v|]| |].
+  - destruct (is_valid_for v cur) eqn:X.
+    + left. exists v. auto.
+    + right. split; auto. intros v' E. inversion E; subst; auto.
+  - right. split; auto. intros v' E. discriminate.
+  - right. split; auto. intros v' E. discriminate.
+  - right. split; auto. intros v' E. discriminate.
+Qed.
+
+(* whatever the caller ends up using was computed for the file as it is now *)
+Lemma lookup_current w k cur fresh w' hit r :
+  lookup w k cur fresh = (w', (hit, r)) -> v_meta fresh = cur -> v_meta r = cur.
+Proof.
+  intros H F. destruct (lookup_cases w k cur fresh) as [(v & _ & X & E) | [_ E]]; rewrite E in H; inversion H; subst; auto.
+  apply is_valid_for_iff; auto.
+Qed.
+
+Lemma lookup_hit w k cur fresh w' r :
+  NoDup (keys (s_q (w_st w))) -> lookup w k cur fresh = (w', (true, r)) ->
+  v_meta r = cur /\
+  exists e, lq_peek k (s_q (w_st w)) = Some e /\ e_val e = r /\ expired e (w_now w) = false.
+Proof.
+  intros N H. destruct (lookup_cases w k cur fresh) as [(v & G & X & E) | [_ E]]; rewrite E in H; inversion H; subst.
+  split. apply is_valid_for_iff; auto.
+  cbn [step] in G. destruct (c_get (w_st w) k (w_now w)) as [st' o] eqn:CG. cbn [snd] in G. inversion G; subst.
+  eapply get_some; eauto.
+Qed.
+
+(* a client history is the primitive history it performed *)
+Lemma lookup_world w k cur fresh :
+  fst (lookup w k cur fresh) =
+  run w (if fst (snd (lookup w k cur fresh)) then [OGet k] else [OGet k; OPut k fresh]).
+Proof.
+  destruct (lookup_cases w k cur fresh) as [(v & _ & _ & E) | [_ E]]; rewrite E; reflexivity.
+Qed.
+
+Lemma crun_trace cs : forall w, crun w cs = run w (trace_of w cs).
+Proof.
+  induction cs as [|c cs IH]; intros w. reflexivity.
+  destruct c as [o | k cur fresh]; cbn [crun fold_left trace_of cstep].
+  - destruct (step w o) as [w1 r] eqn:S. cbn [fst]. change (fold_left _ cs w1) with (crun w1 cs).
+    rewrite IH. cbn [run fold_left]. rewrite S. reflexivity.
+  - pose proof (lookup_world w k cur fresh) as LW.
+    destruct (lookup w k cur fresh) as [w1 [h r]] eqn:LK. cbn [fst snd] in *.
+    change (fold_left _ cs w1) with (crun w1 cs). rewrite IH, run_app, <- LW. reflexivity.
+Qed.
+
+Lemma trace_wf cs : forall w,
+  Forall cop_wf cs ->
+  Forall op_wf (trace_of w cs).
+Proof.
+  induction cs as [|c cs IH]; intros w W; cbn [trace_of]. constructor.
+  inversion W; subst. destruct c as [o | k cur fresh].
+  - constructor; auto.
+  - destruct (lookup w k cur fresh) as [w1 [h r]]. apply Forall_app. split; auto.
+    destruct h.
+    + constructor. exact I. constructor.
+    + constructor. exact I. constructor. exact H1. constructor.
+Qed.
+
+(* ------------------------------------------------------------------ drop_table_entries *)
+Lemma remove_all_other ks : forall st k, ~ In k ks -> lq_peek k (s_q (remove_all st ks)) = lq_peek k (s_q st).
+Proof.
+  induction ks; intros st k NI. reflexivity.
+  rewrite remove_all_cons, IHks by (cbn in NI; tauto).
+  unfold c_remove, lq_remove. destruct (lq_peek a (s_q st)); cbn [fst s_q]; auto.
+  apply peek_del_other. cbn in NI. intros ->. tauto.
+Qed.
+
+Lemma drop_table_gone st t k :
+  Inv st -> tab_matches t k = true -> lq_peek k (s_q (c_drop_table st t)) = None.
+Proof.
+  intros I T. destruct (lq_peek k (s_q (c_drop_table st t))) as [e|] eqn:P; auto.
+  unfold c_drop_table in P. apply remove_all_peek in P; auto. destruct P as [NI P].
+  exfalso. apply NI. apply filter_In. split; auto. eapply peek_in_keys; eauto.
+Qed.
+
+Lemma drop_table_frame st t k :
+  tab_matches t k = false -> lq_peek k (s_q (c_drop_table st t)) = lq_peek k (s_q st).
+Proof.
+  intros T. unfold c_drop_table. apply remove_all_other. rewrite filter_In. intros [_ X]. congruence.
+Qed.
+
+(* the order in which drop_table_entries removes the collected keys (HashMap iteration order in the
+   Rust) does not matter *)
+Lemma lq_del_comm a b q : lq_del a (lq_del b q) = lq_del b (lq_del a q).
+Proof.
+  induction q as [|[k e] q IH]; cbn; auto.
+  destruct (key_eqb k b) eqn:B, (key_eqb k a) eqn:A; cbn; rewrite ?A, ?B; auto.
+  - apply key_eqb_eq in A, B. subst. reflexivity.
+  - rewrite IH. reflexivity.
+Qed.
+Lemma h_del_comm a b h : h_del a (h_del b h) = h_del b (h_del a h).
+Proof.
+  induction h as [|[k n] h IH]; cbn; auto.
+  destruct (key_eqb k b) eqn:B, (key_eqb k a) eqn:A; cbn; rewrite ?A, ?B; auto.
+  rewrite IH. reflexivity.
+Qed.
+
+Lemma c_remove_comm st a b :
+  fst (c_remove (fst (c_remove st a)) b) = fst (c_remove (fst (c_remove st b)) a).
+Proof.
+  keq a b. reflexivity.
+  unfold c_remove, lq_remove.
+  destruct (lq_peek a (s_q st)) as [ea|] eqn:PA, (lq_peek b (s_q st)) as [eb|] eqn:PB;
+    cbn [fst s_q s_hits s_limit s_used s_ttl];
+    rewrite ?(peek_del_other a b), ?(peek_del_other b a), ?PA, ?PB by congruence;
+    cbn [fst s_q s_hits s_limit s_used s_ttl]; auto.
+  f_equal. apply lq_del_comm. apply h_del_comm. lia.
+Qed.
+
+Lemma remove_all_perm ks ks' : Permutation ks ks' -> forall st, remove_all st ks = remove_all st ks'.
+Proof.
+  induction 1; intros st; auto.
+  - rewrite !remove_all_cons. auto.
+  - rewrite !remove_all_cons. rewrite c_remove_comm. reflexivity.
+  - rewrite IHPermutation1. auto.
+Qed.
+
+(* ================================================================== statements used by Props/C40.v *)
+Lemma budget_history limit ttl ops :
+  0 <= limit -> Forall op_wf ops ->
+  let st := w_st (run (start limit ttl) ops) in
+  s_used st = qsum (s_q st) /\ 0 <= s_used st <= s_limit st /\ NoDup (keys (s_q st)).
+Proof.
+  intros L W st. pose proof (run_inv ops _ (start_inv limit ttl L) W) as [[N U LIM S] LE].
+  fold st in N, U, LIM, S, LE. repeat split; auto. rewrite U. apply sizes_ok_qsum; auto.
+Qed.
+
+Lemma budget_client_history limit ttl cs :
+  0 <= limit -> Forall cop_wf cs ->
+  let st := w_st (crun (start limit ttl) cs) in
+  s_used st = qsum (s_q st) /\ 0 <= s_used st <= s_limit st /\ NoDup (keys (s_q st)).
+Proof.
+  intros L W. rewrite crun_trace. apply budget_history; auto. apply trace_wf; auto.
+Qed.
+
+Lemma lru_order_history limit ttl ops :
+  0 <= limit -> Forall op_wf ops ->
+  let q := s_q (w_st (run (start limit ttl) ops)) in
+  subseq (keys q) (recency ops) /\ NoDup (recency ops) /\
+  keys q = filter (fun k => existsb (key_eqb k) (keys q)) (recency ops).
+Proof.
+  intros L W q.
+  destruct (run_order ops (start limit ttl) [] (start_inv limit ttl L) W (NoDup_nil _) (subseq_nil _)) as [A B].
+  split; auto. split; auto. apply subseq_nodup_filter; auto.
+Qed.
+
+Lemma evict_lru st :
+  NoDup (keys (s_q st)) -> s_used st = qsum (s_q st) -> 0 <= s_limit st ->
+  exists pre suf,
+    s_q st = pre ++ suf /\ s_q (c_evict st) = pre /\ s_used (c_evict st) = qsum pre /\
+    qsum pre <= s_limit st /\
+    (suf = [] \/ exists x suf', suf = x :: suf' /\ s_limit st < qsum (pre ++ [x])).
+Proof.
+  intros N U L. destruct (evict_loop_spec (S (length (s_q st))) st) as (pre & suf & A & B & C & D & _ & _ & M); auto.
+  exists pre, suf. unfold c_evict. repeat split; auto. rewrite <- C. auto.
+Qed.
+
+Lemma put_evicts_lru st k v now :
+  Inv st -> 0 <= k_size k -> 0 <= v_size v -> v_size v <> 0 -> k_size k + v_size v <= s_limit st ->
+  let e := mkEntry v (option_map (fun t => now + t) (s_ttl st)) in
+  exists pre suf,
+    lq_del k (s_q st) = pre ++ suf /\ s_q (fst (c_put st k v now)) = (k, e) :: pre /\
+    (suf = [] \/ exists x suf', suf = x :: suf' /\ s_limit st < qsum ((k, e) :: pre ++ [x])).
+Proof.
+  intros I K V NZ FIT e. rewrite c_put_unfold.
+  apply Z.eqb_neq in NZ. rewrite NZ.
+  assert (G : (k_size k + v_size v >? s_limit st) = false) by (rewrite Z.gtb_ltb, Z.ltb_ge; auto).
+  rewrite G. cbn zeta. cbn [fst].
+  pose proof (put_pre st k v now I K V) as PP. cbn zeta in PP.
+  destruct (evict_spec _ PP) as (pre & suf & A & B & C & D & E & F & MIN).
+  rewrite B. cbn [s_q s_limit] in A, MIN.
+  destruct pre as [|p pre].
+  - cbn [app] in A. destruct MIN as [-> | (x & suf' & -> & M)]. discriminate.
+    inversion A; subst x. cbn [app qsum] in M. unfold vsz in M. cbn [e_val] in M. lia.
+  - cbn [app] in A. inversion A; subst p. exists pre, suf. split; auto.
+Qed.
+
+Lemma set_limit_evicts_lru st l :
+  Inv st -> 0 <= l ->
+  exists pre suf,
+    s_q st = pre ++ suf /\ s_q (c_set_limit st l) = pre /\
+    (suf = [] \/ exists x suf', suf = x :: suf' /\ l < qsum (pre ++ [x])).
+Proof.
+  intros [[N U L S] LE] H. unfold c_set_limit.
+  destruct (evict_lru (mkState (s_q st) (s_hits st) l (s_used st) (s_ttl st))) as (pre & suf & A & B & _ & _ & M); auto.
+  exists pre, suf. auto.
+Qed.
+
+Lemma refines_ideal_map limit ttl ops :
+  0 <= limit -> Forall op_wf ops ->
+  let w := run (start limit ttl) ops in
+  let s := sp_run (sp_start limit ttl) ops in
+  (forall k e, lq_peek k (s_q (w_st w)) = Some e -> sp_map s k = Some e) /\
+  (forall k v w', step w (OGet k) = (w', RVal (Some v)) -> sp_get s k = Some v) /\
+  (forall k w', step w (OContains k) = (w', RBool true) -> exists v, sp_get s k = Some v).
+Proof.
+  intros L W w s.
+  pose proof (run_inv ops _ (start_inv limit ttl L) W) as [[N _ _ _] _]. fold w in N.
+  pose proof (run_sub ops _ _ (start_inv limit ttl L) W (start_sub limit ttl)) as (M & _ & _ & EN).
+  fold w in M, EN. fold s in M, EN.
+  split; auto. split.
+  - intros k v w' H. cbn [step] in H. destruct (c_get (w_st w) k (w_now w)) as [st' r] eqn:G.
+    inversion H; subst. apply get_some in G; auto. destruct G as (e & P & <- & X).
+    unfold sp_get. rewrite (M _ _ P), <- EN, X. reflexivity.
+  - intros k w' H. cbn [step] in H. unfold c_contains in H.
+    destruct (lq_peek k (s_q (w_st w))) as [e|] eqn:P; [|inversion H].
+    destruct (expired e (w_now w)) eqn:X; inversion H.
+    exists (e_val e). unfold sp_get. rewrite (M _ _ P), <- EN, X. reflexivity.
+Qed.
+
+Lemma live_entry_is_returned st k now e :
+  NoDup (keys (s_q st)) -> lq_peek k (s_q st) = Some e -> expired e now = false ->
+  snd (c_get st k now) = Some (e_val e).
+Proof. exact (get_complete st k now e). Qed.
+
+Lemma drop_table_effective st t :
+  Inv st ->
+  (forall k, tab_matches t k = true -> lq_peek k (s_q (c_drop_table st t)) = None) /\
+  (forall k, tab_matches t k = false -> lq_peek k (s_q (c_drop_table st t)) = lq_peek k (s_q st)).
+Proof.
+  intros I. split; intros k T. apply drop_table_gone; auto. apply drop_table_frame; auto.
+Qed.
+
+Lemma client_history_is_primitive cs w : crun w cs = run w (trace_of w cs).
+Proof. apply crun_trace. Qed.
